@@ -6,19 +6,20 @@
    (1) per-pixel exactness of the sample mappings and the row-filter stage (the C01_partial_pixel theorems);
    (2) IMAGE LEVEL, for every width, height, interlacing and content: each of the transformations
        16->8, sub-byte expansion to 8 bits and reduction to 1/2/4 bits, RGB(A)->gray(A), alpha removal, truecolour/gray->indexed, indexed->channels, palette
-       condensation, palette luma sort and any palette reordering that covers the used indices maps a
+       condensation, palette luma sort, any palette reordering that covers the used indices, interlacing and
+       DE-INTERLACING (the state machine of src/interlace.rs, bits and bytes variants) maps a
        well-formed image that means `pic` to a well-formed image that means `pic` (the C01_image theorems);
    (3) PIPELINE: perform_reductions, for every option vector with the two lossy switches off and every
        clock: the baseline and every candidate handed to the evaluator mean what the input means
        (C01_reductions_lossless_partial) -- given the record `leaves`, which names exactly the
-       transformations whose image-level theorem is NOT yet proved in Coq (the de-interlacing
-       state machine; coverage of the mzeng/battiato reindexing); those, the
+       transformations whose image-level theorem is NOT yet proved in Coq (coverage of the
+       mzeng/battiato reindexing); those, the
        parsing of the INPUT file into the image (`from_slice`) is decided on every run by the
        correspondence check and the specification oracle (see evidence). *)
 From OxiVerif Require Import Base.Common Spec.Filter Spec.Adam7 Spec.Sem Model.Types Model.Options Model.BitDepth
   Model.ScanLines Model.Filters Model.Color Model.Palette Model.Reductions Model.Evaluate Model.Optimize
   Proofs.Bridge Proofs.PixelProofs Proofs.FilterProofs Proofs.ImageLift Proofs.LiftReductions Proofs.LiftColor
-  Proofs.LiftPalette Proofs.LiftLines Proofs.LiftBits Proofs.LiftInterlace Proofs.PipelineLossless Proofs.FilterStream Proofs.EmittedStream.
+  Proofs.LiftPalette Proofs.LiftLines Proofs.LiftBits Proofs.LiftInterlace Proofs.LiftDeinterlace Proofs.PipelineLossless Proofs.FilterStream Proofs.EmittedStream.
 From OxiVerif Require Import Model.Interlace.
 From OxiVerif Require Import Spec.Decode Spec.DecodeFile Model.Headers Model.PngData Proofs.OutputProofs Proofs.OutputDecode Proofs.FileLevel Proofs.UnfilterImage.
 
@@ -214,3 +215,10 @@ Example C01_example_F1 :
           data := [52; 52; 18; 18; 0; 0; 255; 255] |} false)
   = Some (Gray None, [52; 18; 0; 255]).
 Proof. vm_compute. reflexivity. Qed.
+
+(* de-interlacing: deinterlace_image (the pass / row state machine with increment_pass, bits and bytes variants) maps a
+   well-formed interlaced image that means `pic` to a well-formed non-interlaced image that means `pic` - every size *)
+Theorem C01_image_deinterlace : forall img img' pic, wf img -> interlaced (hdr img) = true ->
+  deinterlace_image img = Ok img' -> sem img = Some pic -> sem img' = Some pic /\ wf img'.
+Proof. exact deinterlace_image_sem. Qed.
+Print Assumptions C01_image_deinterlace.
